@@ -1049,6 +1049,12 @@ def deep_copy(interp, v, memo=None, mark_fresh=True):
     if isinstance(v, Obj):
         if v.cls.name == 'Substance':
             return v
+        # a class that defines __deepcopy__ is copied by that method (CPython's copy protocol), not field by field
+        hcls, hook = interp.find_method(v.cls, '__deepcopy__') if hasattr(v.cls, 'methods') else (None, None)
+        if hook is not None:
+            r = interp.call_func(FuncV(hook, f"{hcls.name}.__deepcopy__", hcls), [v, memo], {}, None)
+            memo[id(v)] = r
+            return r
         o = Obj(v.cls, True)
         o.tag = v.tag
         o.__dict__['origin'] = v.__dict__.get('origin', v)     # provenance: which object this is a copy of
@@ -1090,6 +1096,9 @@ def b_deepcopy(interp, args, kwargs, node):
 def b_copy(interp, args, kwargs, node):
     v = args[0]
     if isinstance(v, Obj):
+        hcls, hook = interp.find_method(v.cls, '__copy__') if hasattr(v.cls, 'methods') else (None, None)
+        if hook is not None:
+            return interp.call_func(FuncV(hook, f"{hcls.name}.__copy__", hcls), [v], {}, node)
         o = Obj(v.cls, True)
         o.tag = v.tag
         o.fields = dict(v.fields)
